@@ -192,7 +192,7 @@ func askedPointsHistory(rng *rand.Rand, out *Out) {
 	h.recordElections()
 	gp := newGapPlan(rng, durSec)
 	// a tail gap over whole periods and an empty beginning occur in every history; the other epochs are drawn
-	epochs := int64(4 + rng.Intn(2))
+	epochs := int64(3 + rng.Intn(2))
 	forced := rng.Perm(int(epochs))
 	gp.force(int64(forced[0]), 0)
 	gp.force(int64(forced[1]), 3)
@@ -232,15 +232,17 @@ func askedPointsHistory(rng *rand.Rand, out *Out) {
 		if fe > 0 {
 			h.query(true, fe-1, fresh)
 		}
-		h.query(false, ft, fresh)
-		if ft > 0 && rng.Intn(2) == 0 {
+		if rng.Intn(2) == 0 {
+			h.query(false, ft, fresh)
+		}
+		if ft > 0 && rng.Intn(4) == 0 {
 			h.query(false, ft-1, fresh)
 		}
-		if rng.Intn(4) == 0 {
+		if rng.Intn(8) == 0 {
 			h.query(true, fe+1, fresh)
 			h.query(false, ft+1, fresh)
 		}
-		if fe > 1 && rng.Intn(4) == 0 {
+		if fe > 1 && rng.Intn(8) == 0 {
 			h.query(true, fe-2, fresh)
 		}
 	}
